@@ -74,6 +74,30 @@ def gen_cases(rng, tier):
                 probes.append([rng.choice(['mul', 'div']), ['u', rng.choice(us)], ['u', rng.choice(us)]])
         cases.append({'dm': rng.choice(W.MODES), 'pre': False, 'script': script, 'hist': probes[:8],
                       'late': late, 'q': C15._dirq(w, script + late)})
+    # a derived type rejected for the SYMBOL of its reference unit, then declared properly: the
+    # products that resolve to its dimension must find the second type's unit, not a leftover
+    # of the first attempt (seeded C17-h: unit entered in the definition directory first)
+    for i in range(12 if tier == 'quick' else 120):
+        tag = ''.join(rng.choice('abcdefghk') for _ in range(3))
+        e = rng.choice([1, -1])
+        script = [
+            {'d': 'cls', 'name': f"A{tag}", 'def': None, 'ref': f"{tag}a", 'quantum': None},
+            {'d': 'unit', 'cls': f"A{tag}", 'sym': f"{tag}ka", 'def': ['qty', ['int', '1000/1'], f"{tag}a"]},
+            {'d': 'cls', 'name': f"B{tag}", 'def': None, 'ref': f"{tag}b", 'quantum': None},
+            {'d': 'unit', 'cls': f"B{tag}", 'sym': f"{tag}hb", 'def': ['qty', ['int', '3600/1'], f"{tag}b"]},
+            {'d': 'cls', 'name': f"V{tag}", 'def': [[f"A{tag}", 1], [f"B{tag}", e]],
+             'ref': rng.choice([f"{tag}b", f"{tag}ka"]), 'quantum': None},          # rejected
+            {'d': 'cls', 'name': f"W{tag}", 'def': [[f"A{tag}", 1], [f"B{tag}", e]], 'ref': None,
+             'quantum': None},
+        ]
+        w = RW.RefWorld()
+        for d in script:
+            w.apply(d)
+        o = 'mul' if e > 0 else 'div'
+        probes = [[o, ['q', ['int', '3/1'], f"{tag}ka"], ['q', ['int', '2/1'], f"{tag}hb"]],
+                  [o, ['u', f"{tag}a"], ['u', f"{tag}b"]], [o, ['u', f"{tag}ka"], ['q', ['int', '5/1'], f"{tag}b"]]]
+        cases.append({'dm': 'MHEVEN', 'pre': False, 'script': script, 'hist': probes, 'late': [],
+                      'q': C15._dirq(w, script)})
     # rejected updates of a money converter (C11's harness and independent oracle)
     for i in range(20 if tier == 'quick' else 200):
         sc = C11.gen_script_rejected_first(rng) if i % 2 else C11.gen_script(rng)
